@@ -3,6 +3,7 @@ import FgaVerif.Model.Listener
 import FgaVerif.Model.AtnGraph
 import FgaVerif.Gen.Grammar
 import FgaVerif.Gen.LexGrammar
+import FgaVerif.Gen.ParserCode
 /-!
 # C19 — the Go, JS and Java parsers are generated from the one grammar in the repository
 
@@ -131,6 +132,40 @@ theorem grammar_rule_names : FgaVerif.Gen.Grammar.rules.map (·.1) = goParserRul
 /-- every rule body of the `.g4` has the local sets of its sub-automaton in the embedded ATN -/
 theorem grammar_matches_atn :
     (List.range FgaVerif.Gen.Grammar.rules.length).all ruleAgrees = true ∧ 20 < FgaVerif.Gen.Grammar.rules.length := by
+  decide +kernel
+
+/-! ## The code of the generated parsers and the automaton
+
+    The serialized ATN is data; the recursive-descent *code* around it is generated too and can be
+    hand-edited independently.  `tools/gen_parsercode.py` re-extracts, from the Go, TypeScript and Java
+    parser sources, every statement a rule function makes about the automaton — the start state it
+    enters its rule at, the decision number it asks the interpreter to predict at a state, the token
+    it matches at a state, the rule it calls at a state — and the kernel decides that each one is a
+    fact of the deserialized ATN (206 facts per language). -/
+
+open FgaVerif.Model.AtnGraph FgaVerif.Gen.ParserCode in
+theorem go_parser_code_matches_atn :
+    codeAgrees parserAtn goParserRules goParserSymbolic goEnter goDecisions goMatches goCalls = true ∧
+    goEnter.length = goParserRules.length ∧ 20 < goDecisions.length ∧ 50 < goMatches.length ∧ 30 < goCalls.length := by
+  decide +kernel
+
+open FgaVerif.Model.AtnGraph FgaVerif.Gen.ParserCode in
+theorem js_parser_code_matches_atn :
+    codeAgrees parserAtn goParserRules goParserSymbolic jsEnter jsDecisions jsMatches jsCalls = true ∧
+    jsEnter.length = goParserRules.length ∧ 20 < jsDecisions.length ∧ 50 < jsMatches.length ∧ 30 < jsCalls.length := by
+  decide +kernel
+
+open FgaVerif.Model.AtnGraph FgaVerif.Gen.ParserCode in
+theorem java_parser_code_matches_atn :
+    codeAgrees parserAtn goParserRules goParserSymbolic javaEnter javaDecisions javaMatches javaCalls = true ∧
+    javaEnter.length = goParserRules.length ∧ 20 < javaDecisions.length ∧ 50 < javaMatches.length ∧ 30 < javaCalls.length := by
+  decide +kernel
+
+open FgaVerif.Gen.ParserCode in
+/-- the three generated parsers make the same statements, in the same order -/
+theorem parser_code_same_in_all_languages :
+    goEnter = jsEnter ∧ goEnter = javaEnter ∧ goDecisions = jsDecisions ∧ goDecisions = javaDecisions ∧
+    goMatches = jsMatches ∧ goMatches = javaMatches ∧ goCalls = jsCalls ∧ goCalls = javaCalls := by
   decide +kernel
 
 /-! ## The lexer grammar and the lexer automaton
